@@ -158,8 +158,8 @@ def run(repo: Repo, chk: Check, thorough: bool = False) -> None:
             return True
         return isinstance(n, ast.Call) and call_name(n) == 'pop' and isinstance(n.func, ast.Attribute) and 'allobjects' in norm(n.func.value) and \
             bool(n.args) and 'fullName()' in norm(n.args[0])
-    rekey = [g for g in repo.funcs.values() if g.mod.name == M and any(_keys_registry(n) for n in g.walk()) and
-             any(isinstance(c, ast.Call) and call_name(c) == g.name for lp in g.walk() if isinstance(lp, ast.For) for st in lp.body for c in ast.walk(st))]
+    # (recursion is what R02.3 CHECKS, so it is not part of the role: a routine that lost its recursion is still a re-keying routine)
+    rekey = [g for g in repo.funcs.values() if g.mod.name == M and any(_keys_registry(n) for n in g.walk())]
     REG = {g.name for g in rekey if any(isinstance(n, ast.Subscript) and isinstance(n.ctx, ast.Store) and _keys_registry(n) for n in g.walk())}
     UNREG = {g.name for g in rekey} - REG
     if len(rekey) < 4 or not REG or not UNREG:
